@@ -337,7 +337,7 @@ def run(ctx: Ctx) -> int:
                        extra_scan=["CobraModel/Lemmas/GPR.lean", "CobraModel/Model/GPR.lean"],
                        regenerate=translate_gpr.regenerate)
     rng = ctx.rng
-    n = ctx.scale(3000, 150000)
+    n = ctx.scale(3000, 60000)
     stats = {"faithful": 0, "malformed_stream": 0, "kinds": {}, "impl_kinds": {}, "remove": 0, "validated": 0, "eq_pairs": 0, "eq_true": 0}
     distinct = set()
     samples = []
